@@ -114,6 +114,21 @@ impl FraudProof for BadEncodingFraudProof {
                 (AxisType::Col, AxisType::Col) => header.dah.column_root(self.index).unwrap(),
             };
 
+            // the proof must be for exactly one leaf, at the position this share claims
+            // to occupy: `share_idx` on the disputed axis, `self.index` on the crossing one
+            let leaf_idx = if self.axis == *proof_axis {
+                share_idx
+            } else {
+                usize::from(self.index)
+            };
+            if proof.start_idx() as usize != leaf_idx || proof.end_idx() as usize != leaf_idx + 1 {
+                bail_validation!(
+                    "share {share_idx} is proven for leaves {}..{} instead of {leaf_idx}",
+                    proof.start_idx(),
+                    proof.end_idx(),
+                );
+            }
+
             proof
                 .verify_range(&root, &[&share], **namespace)
                 .map_err(Error::RangeProofError)?;
@@ -149,9 +164,12 @@ impl FraudProof for BadEncodingFraudProof {
         let mut nmt = Nmt::default();
 
         for (n, share) in rebuilt_shares.iter().enumerate() {
-            let ns = if n < ods_width {
+            // only the first quadrant is committed under the shares' own namespaces
+            let ns = if n < ods_width && usize::from(self.index) < ods_width {
+                // Reconstructed bytes are not necessarily a valid namespace; the root has
+                // to be recomputed over whatever they are.
                 // safety: length must be correct
-                Namespace::from_raw(&share[..NS_SIZE]).unwrap()
+                Namespace::new_unchecked(share[..NS_SIZE].try_into().unwrap())
             } else {
                 Namespace::PARITY_SHARE
             };
